@@ -159,6 +159,22 @@ impl Bytes {
     }
 }
 
+/// tamper parameters, always drawn FIRST so that the counterexample's values sit at fixed positions
+pub struct Tam {
+    pub pos: usize,
+    pub bit: u8,
+    pub x: u8,
+}
+impl Tam {
+    pub fn any() -> Tam {
+        let pos: usize = kani::any();
+        let bit: u8 = kani::any();
+        let x: u8 = kani::any();
+        kani::assume(bit < 8);
+        Tam { pos, bit, x }
+    }
+}
+
 pub struct Sealed<V: HasKey<Local>> {
     pub key: <V as HasKey<Local>>::Key,
     pub kb: [u8; 32],
@@ -185,13 +201,13 @@ pub fn sealed_local<V: SealingVersion<Local>>(m: usize, f: usize, a: usize) -> S
 
 /// one symbolic bit anywhere in the sealed payload (nonce, ciphertext, tag)
 pub fn local_tamper_payload_bit<V: SealingVersion<Local>>(m: usize, f: usize, a: usize, keystream_applied: fn() -> usize) {
+    let Tam { pos, bit, .. } = Tam::any();
     let mut s = sealed_local::<V>(m, f, a);
-    let pos: usize = kani::any();
-    let bit: u8 = kani::any();
-    kani::assume(pos < s.sealed.len() && bit < 8);
+    kani::assume(pos < s.sealed.len());
     s.sealed[pos] ^= 1 << bit;
     let slen = s.sealed.len();
     let before = keystream_applied();
+    vmodel::forbid(&s.sealed);
     let r = <V as UnsealingVersion<Local>>::unseal(&s.key, "", &mut s.sealed, s.footer.s(), s.aad.s());
     let k = kind(&r);
     assert!(k != 255, "a token with one flipped bit was accepted");
@@ -211,12 +227,9 @@ pub fn local_tamper_payload_bit<V: SealingVersion<Local>>(m: usize, f: usize, a:
 /// byte moves to the end of the ciphertext, 10 truncate by one at the end, 11 at the front,
 /// 12 extend at the end, 13 at the front, 14 any other key.   Sealed with f >= 1 and a >= 1 where needed.
 pub fn local_tamper_class<V: SealingVersion<Local>, const W: u8>(m: usize, f: usize, a: usize, tag_len: usize) {
+    let Tam { pos, bit, x } = Tam::any();
     let s = sealed_local::<V>(m, f, a);
     let n = s.sealed.len();
-    let x: u8 = kani::any();
-    let pos: usize = kani::any();
-    let bit: u8 = kani::any();
-    kani::assume(bit < 8);
     let mut f2 = [0u8; SMAX + 2];
     let mut a2 = [0u8; SMAX + 2];
     let mut p2: Vec<u8> = Vec::with_capacity(n + 2);
@@ -294,6 +307,7 @@ pub fn local_tamper_class<V: SealingVersion<Local>, const W: u8>(m: usize, f: us
         Some(k) => k,
         None => &s.key,
     };
+    vmodel::forbid(&p2);
     let r = <V as UnsealingVersion<Local>>::unseal(key, "", &mut p2, &f2[..fl], &a2[..al]);
     assert!(kind(&r) != 255, "token accepted under a different footer / assertion / boundary / length / key");
     kani::cover!(true, "tampered unseal reached");
@@ -413,12 +427,12 @@ pub fn public_aad_refused<V: SealingVersion<Public>>() {
 }
 
 pub fn public_tamper_payload_bit<V: SealingVersion<Public>>(m: usize, f: usize, a: usize) {
+    let Tam { pos, bit, .. } = Tam::any();
     let mut s = signed::<V>(m, f, a, false);
-    let pos: usize = kani::any();
-    let bit: u8 = kani::any();
-    kani::assume(pos < s.sealed.len() && bit < 8);
+    kani::assume(pos < s.sealed.len());
     s.sealed[pos] ^= 1 << bit;
     let slen = s.sealed.len();
+    vmodel::forbid(&s.sealed);
     let r = <V as UnsealingVersion<Public>>::unseal(&s.pk, "", &mut s.sealed, s.footer.s(), s.aad.s());
     let k = kind(&r);
     assert!(k != 255, "a signed token with one flipped bit was accepted");
@@ -431,12 +445,9 @@ pub fn public_tamper_payload_bit<V: SealingVersion<Public>>(m: usize, f: usize, 
 
 /// classes as in `local_tamper_class` (8/9: message|footer boundary; 14: another key pair)
 pub fn public_tamper_class<V: SealingVersion<Public>, const W: u8>(m: usize, f: usize, a: usize) {
+    let Tam { pos, bit, x } = Tam::any();
     let s = signed::<V>(m, f, a, false);
     let n = s.sealed.len();
-    let x: u8 = kani::any();
-    let pos: usize = kani::any();
-    let bit: u8 = kani::any();
-    kani::assume(bit < 8);
     let mut f2 = [0u8; SMAX + 2];
     let mut a2 = [0u8; SMAX + 2];
     let mut p2: Vec<u8> = Vec::with_capacity(n + 2);
@@ -523,6 +534,7 @@ pub fn public_tamper_class<V: SealingVersion<Public>, const W: u8>(m: usize, f: 
         Some(k) => k,
         None => &s.pk,
     };
+    vmodel::forbid(&p2);
     let r = <V as UnsealingVersion<Public>>::unseal(pk, "", &mut p2, &f2[..fl], &a2[..al]);
     assert!(kind(&r) != 255, "signed token accepted under a different footer / assertion / boundary / length / key");
     kani::cover!(true, "tampered verify reached");
@@ -581,6 +593,7 @@ pub fn pie_roundtrip<V: PieWrapVersion, const KD: usize>(header: &'static str, o
 
 /// W: 0 one symbolic bit anywhere, 1 header relabel, 2 another wrapping key, 3 truncate, 4 extend
 pub fn pie_tamper<V: PieWrapVersion, const KD: usize, const W: u8>(header: &'static str, other_header: &'static str) {
+    let Tam { pos, bit, x } = Tam::any();
     let wkb: [u8; 32] = kani::any();
     let kd: [u8; KD] = kani::any();
     let wk = forget(<V as HasKey<Local>>::decode(&wkb)).unwrap();
@@ -600,11 +613,8 @@ pub fn pie_tamper<V: PieWrapVersion, const KD: usize, const W: u8>(header: &'sta
     let mut wk2 = None;
     match W {
         0 => {
-            let pos: usize = kani::any();
-            let bit: u8 = kani::any();
-            kani::assume(pos < n && bit < 8);
+            kani::assume(pos < n);
             b[pos] ^= 1 << bit;
-            kani::cover!(pos == n - 1);
         }
         1 => hdr = other_header,
         2 => {
@@ -613,15 +623,16 @@ pub fn pie_tamper<V: PieWrapVersion, const KD: usize, const W: u8>(header: &'sta
             wk2 = forget(<V as HasKey<Local>>::decode(&kb2));
         }
         3 => b.truncate(n - 1),
-        _ => b.push(kani::any()),
+        _ => b.push(x),
     }
     let k = match &wk2 {
         Some(k) => k,
         None => &wk,
     };
+    vmodel::forbid(&b);
     let r = V::pie_unwrap_key(hdr, k, &mut b);
     assert!(kind(&r) != 255, "tampered / relabelled PIE blob or wrong key accepted");
-    kani::cover!(true, "tampered unwrap reached");
+    kani::cover!(W != 0 || pos == n - 1, "tampered unwrap reached (class 0: last byte)");
     core::mem::forget(r);
     core::mem::forget(b);
     core::mem::forget(out);
@@ -663,8 +674,9 @@ pub fn pw_params_from_bytes<V: PwWrapVersion, const PL: usize>(params_off: usize
     forget(V::get_params(&blob))
 }
 
-pub fn pw_roundtrip<V: PwWrapVersion, const KD: usize, const PW: usize>(header: &'static str, overhead: usize, params: Option<V::Params>) {
-    let pass: [u8; PW] = kani::any();
+pub fn pw_roundtrip<V: PwWrapVersion, const KD: usize>(pw: usize, header: &'static str, overhead: usize, params: Option<V::Params>) {
+    let pass_b = Bytes::any(pw);
+    let pass = pass_b.s();
     let kd: [u8; KD] = kani::any();
     let defaults = params.is_none();
     let params = match params {
@@ -673,7 +685,7 @@ pub fn pw_roundtrip<V: PwWrapVersion, const KD: usize, const PW: usize>(header: 
     };
     let mut v = Vec::with_capacity(KD);
     v.extend_from_slice(&kd);
-    let wrapped = V::pw_wrap_key(header, &pass, &params, v);
+    let wrapped = V::pw_wrap_key(header, pass, &params, v);
     let mut out = match forget(wrapped) {
         Some(o) => o,
         None => {
@@ -683,7 +695,7 @@ pub fn pw_roundtrip<V: PwWrapVersion, const KD: usize, const PW: usize>(header: 
         }
     };
     assert!(out.len() == overhead + KD, "password-wrapped key has the wrong length");
-    match forget(V::pw_unwrap_key(header, &pass, &mut out)) {
+    match forget(V::pw_unwrap_key(header, pass, &mut out)) {
         Some(k) => {
             assert!(eq(k, &kd), "unwrapped key differs");
             kani::cover!(true, "round trip reached");
@@ -706,6 +718,7 @@ pub fn pw_default_must_succeed<V: PwWrapVersion>(header: &'static str) {
 /// W: 0 one symbolic bit anywhere (salt, params, nonce, ciphertext, tag), 1 header relabel,
 /// 2 another password of the same length, 3 password extended, 4 password shortened, 5 truncate, 6 extend
 pub fn pw_tamper<V: PwWrapVersion, const KD: usize, const W: u8>(header: &'static str, other_header: &'static str) {
+    let Tam { pos, bit, x } = Tam::any();
     let pass: [u8; 2] = kani::any();
     let kd: [u8; KD] = kani::any();
     let mut v = Vec::with_capacity(KD);
@@ -725,11 +738,8 @@ pub fn pw_tamper<V: PwWrapVersion, const KD: usize, const W: u8>(header: &'stati
     let mut pl = 2;
     match W {
         0 => {
-            let pos: usize = kani::any();
-            let bit: u8 = kani::any();
-            kani::assume(pos < n && bit < 8);
+            kani::assume(pos < n);
             b[pos] ^= 1 << bit;
-            kani::cover!(pos == n - 1);
         }
         1 => hdr = other_header,
         2 => {
@@ -739,16 +749,17 @@ pub fn pw_tamper<V: PwWrapVersion, const KD: usize, const W: u8>(header: &'stati
             p2[1] = q[1];
         }
         3 => {
-            p2[2] = kani::any();
+            p2[2] = x;
             pl = 3;
         }
         4 => pl = 1,
         5 => b.truncate(n - 1),
-        _ => b.push(kani::any()),
+        _ => b.push(x),
     }
+    vmodel::forbid(&b);
     let r = V::pw_unwrap_key(hdr, &p2[..pl], &mut b);
     assert!(kind(&r) != 255, "tampered / relabelled PBKW blob or wrong password accepted");
-    kani::cover!(true, "tampered unwrap reached");
+    kani::cover!(W != 0 || pos == n - 1, "tampered unwrap reached (class 0: last byte)");
     core::mem::forget(r);
     core::mem::forget(b);
     core::mem::forget(out);
@@ -805,7 +816,8 @@ pub fn pke_roundtrip<V: PkeSealingVersion + PkeUnsealingVersion>(rcpt: Recipient
 }
 
 /// W: 0 one symbolic bit anywhere (tag, ephemeral key, encrypted key), 1 another recipient, 2 truncate, 3 extend
-pub fn pke_tamper<V: PkeSealingVersion + PkeUnsealingVersion, const W: u8>(rcpt: Recipient<V>, other: Option<Recipient<V>>) {
+pub fn pke_tamper<V: PkeSealingVersion + PkeUnsealingVersion, const W: u8>(tam: Tam, rcpt: Recipient<V>, other: Option<Recipient<V>>) {
+    let Tam { pos, bit, x } = tam;
     let kb: [u8; 32] = kani::any();
     let key = forget(<V as HasKey<Local>>::decode(&kb)).unwrap();
     let sealed = match forget(V::seal_key(&rcpt.pk, key)) {
@@ -820,23 +832,28 @@ pub fn pke_tamper<V: PkeSealingVersion + PkeUnsealingVersion, const W: u8>(rcpt:
     b.extend_from_slice(&sealed);
     match W {
         0 => {
-            let pos: usize = kani::any();
-            let bit: u8 = kani::any();
-            kani::assume(pos < n && bit < 8);
+            kani::assume(pos < n);
             b[pos] ^= 1 << bit;
-            kani::cover!(pos == n - 1);
         }
         1 => {}
         2 => b.truncate(n - 1),
-        _ => b.push(kani::any()),
+        _ => b.push(x),
     }
     let sk = match (&other, W) {
-        (Some(o), 1) => &o.sk,
+        (Some(o), 1) => {
+            // "another recipient" means another key pair
+            let e1 = <V as HasKey<PkePublic>>::encode(&rcpt.pk);
+            let e2 = <V as HasKey<PkePublic>>::encode(&o.pk);
+            kani::assume(!eq(&e1, &e2));
+            core::mem::forget((e1, e2));
+            &o.sk
+        }
         _ => &rcpt.sk,
     };
+    vmodel::forbid(&b);
     let r = V::unseal_key(sk, b.into_boxed_slice());
     assert!(kind(&r) != 255, "tampered sealed key or wrong recipient accepted");
-    kani::cover!(true, "tampered unseal reached");
+    kani::cover!(W != 0 || pos == n - 1, "tampered unseal reached (class 0: last byte)");
     core::mem::forget(r);
     core::mem::forget(sealed);
 }
